@@ -8,4 +8,5 @@ Exc1 == "Classpath-exception-2.0"
 Exc2 == "Bison-exception-2.2"
 Plain == "Zlib"
 Gnu == "GPL-2.0-or-later"   \* a listed -or-later id
+Last == "zlib-acknowledgement"   \* a listed id that sorts after the others (byte order)
 =============================================================================
